@@ -59,7 +59,7 @@ fn fixpoint(n: usize) {
     assert!(m >= 1 && m <= n, "O9.3 merge_recursive neither invents nor loses all elements");
     kani::cover!(m == 1 && n > 2, "everything merged into one");
     kani::cover!(m == n, "nothing merged");
-    kani::cover!(m == 2 && n == 3, "a partial merge");
+    kani::cover!(m > 1 && m < n, "a partial merge");
     // no two results can still merge: the loop stopped at a fixpoint
     let mut a = 0;
     while a < m {
